@@ -17,6 +17,7 @@ class MemWriter:
         self.buffer = bytearray()
         self.closed = False
         self.close_calls = 0
+        self.write_after_close = 0
         self.fail: BaseException | None = None
         self.fail_wait_closed: BaseException | None = None
         self.on_write = on_write
@@ -33,7 +34,9 @@ class MemWriter:
         if self.fail is not None:
             raise self.fail
         if self.closed:
-            raise RuntimeError("write to closed MemWriter")
+            # a real StreamWriter drops data written after close(); the following drain() reports the lost connection
+            self.write_after_close += 1
+            return
         now, task = self._now()
         self.writes.append((now, task, bytes(data)))
         self.buffer += data
@@ -47,6 +50,8 @@ class MemWriter:
     async def drain(self) -> None:
         if self.fail is not None:
             raise self.fail
+        if self.closed:
+            raise ConnectionResetError("Connection lost")
 
     def close(self) -> None:
         self.close_calls += 1
